@@ -22,6 +22,12 @@ CHECKS = {
         "note": "First time point, measure, time signature and divisions entry are at position 0 (what importers produce); values before the first signature are not judged; tolerance 1e-9 relative (forward), 1e-6 absolute (inverse). Cases where user-supplied musical beats make 'shorter than a bar' differ between quarters and beats are counted and not judged.",
         "technique": "property-based testing (Hypothesis) against an exact Fraction reference model of musical time",
     },
+    "C03": {
+        "text": "Generated scores (1-3 parts, nested part groups, 1-2 staves, 1-3 voices, unequal chords, mid-bar division/signature/clef changes, pickups, irregular bars, tie chains over bar lines, tuplets, grace runs, nested/overlapping slurs, articulations, stems, fermatas, fingering, unpitched notes, dynamics, wedges, words, tempo marks, repeats, endings) are saved; (A) an independent xml.etree walk of the bytes (divisions, backup/forward, chords, time-paired ties, grace notes) must denote exactly the abstract score's sounding notes in exact quarters; (B) the semantic fingerprint of the reloaded score (structure, measures, divisions, signatures, clefs, every note field, slurs, tuplets, directions, tempi, repeats, endings) must equal the original's, differences reported per field; (C) save(load(bytes)) must equal bytes, strictly for importer-obtained scores. Exploration.",
+        "design_ref": "DESIGN.md 4 C03",
+        "note": "Ties of one pitch never have intersecting measure ranges inside a part (MusicXML pairs ties by pitch); main notes of grace notes are pitched; equivalences: alter None=0, staff None=1, effective symbolic duration, ending numbers as strings, grace kind not compared; Page/System/beams not compared. Two open findings (designed behaviour): voice renumbering for polyphony inside a voice, first-page <print> added on the first re-export.",
+        "technique": "property-based testing (Hypothesis): round trip with semantic fingerprint + independent MusicXML interpreter + byte fixpoint",
+    },
     "C04": {
         "text": "Generated scores (1-3 parts sharing the metrical structure, divisions differing per part and inside a part incl. 3/5/6/7/12, tuplets, pickups, grace notes, tie chains, part groups, tempo marks) are exported with every part_voice_assign_mode x anacrusis behaviour x minimum_ppq x velocity; the file is read by an independent absolute-tick interpreter (mido iteration, FIFO pairing) and compared with exact integer ticks from Fraction arithmetic (ticks per beat = lcm doubled to the minimum, note multiset, velocity, track/channel assignment, tempo/key/time-signature meta events), then re-imported with load_score_midi (same mode: note multiset and partition into parts/voices) and load_performance_midi (file ticks). Exploration.",
         "design_ref": "DESIGN.md 4 C04",
